@@ -2,9 +2,9 @@ use std::cmp;
 use std::fmt::Write;
 
 use liquid_core::model::try_find;
-use liquid_core::model::KStringCow;
 use liquid_core::model::ValueViewCmp;
 use liquid_core::parser::parse_variable;
+use liquid_core::runtime::Variable;
 use liquid_core::Expression;
 use liquid_core::Result;
 use liquid_core::Runtime;
@@ -14,7 +14,7 @@ use liquid_core::{
 };
 use liquid_core::{Value, ValueView};
 
-use crate::invalid_input;
+use crate::{invalid_argument, invalid_input};
 
 #[derive(Debug, Default, FilterParameters)]
 struct SortArgs {
@@ -51,10 +51,9 @@ enum NilsOrder {
 
 fn safe_property_getter<'v>(
     value: &'v Value,
-    property: &KStringCow<'_>,
+    variable: &Variable,
     runtime: &dyn Runtime,
 ) -> ValueCow<'v> {
-    let variable = parse_variable(property).expect("Failed to parse variable");
     if let Some(path) = variable.try_evaluate(runtime) {
         try_find(value, path.as_slice()).unwrap_or(ValueCow::Borrowed(&Value::Nil))
     } else {
@@ -148,11 +147,15 @@ impl Filter for SortFilter {
 
         let mut sorted: Vec<Value> = input.iter().map(|v| v.to_value()).collect();
         if let Some(property) = &args.property {
+            // The property names a variable path; a string that is not one is an invalid
+            // argument, not a reason to panic.
+            let variable = parse_variable(property)
+                .map_err(|_| invalid_argument("property", "Variable path expected"))?;
             // Using unwrap is ok since all of the elements are objects
             sorted.sort_by(|a, b| {
                 nil_safe_compare(
-                    safe_property_getter(a, property, runtime).as_view(),
-                    safe_property_getter(b, property, runtime).as_view(),
+                    safe_property_getter(a, &variable, runtime).as_view(),
+                    safe_property_getter(b, &variable, runtime).as_view(),
                     nils,
                 )
                 .unwrap_or(cmp::Ordering::Equal)
